@@ -254,7 +254,7 @@ func lpErrClass(v ssa.Value, at *ssa.BasicBlock, depth int) int {
 	case *ssa.ChangeInterface:
 		return lpErrClass(x.X, at, depth+1)
 	case *ssa.Call:
-		if sc := x.Call.StaticCallee(); sc != nil {
+		if sc := ir.Callee(x.Call); sc != nil {
 			switch sc.String() {
 			case "fmt.Errorf", "errors.New":
 				return lpErrNonNil
@@ -516,7 +516,7 @@ func lpCallName(com *ssa.CallCommon) string {
 	if com.IsInvoke() {
 		return com.Method.Name()
 	}
-	if sc := com.StaticCallee(); sc != nil {
+	if sc := ir.Callee(com); sc != nil {
 		return sc.Name()
 	}
 	if b, ok := com.Value.(*ssa.Builtin); ok {
@@ -864,7 +864,7 @@ func (R *lpResolver) origins(v ssa.Value) (fns map[*ssa.Function]bool, opaque bo
 				return fns, true
 			}
 		case *ssa.Call:
-			g := y.Call.StaticCallee()
+			g := ir.Callee(y.Call)
 			if g == nil || g.Blocks == nil {
 				return fns, true
 			}
@@ -890,7 +890,7 @@ func (R *lpResolver) Callees(ci ssa.CallInstruction) []*ssa.Function {
 	all := R.c.Facts.Callees(ci)
 	out := all
 	com := ci.Common()
-	if !com.IsInvoke() && com.StaticCallee() == nil && len(all) > 0 {
+	if !com.IsInvoke() && ir.Callee(com) == nil && len(all) > 0 {
 		if _, isB := com.Value.(*ssa.Builtin); !isB {
 			if fns, opaque := R.origins(com.Value); !opaque {
 				out = nil
